@@ -1,4 +1,4 @@
-import HexVerif.Lemmas.XcmpStage4
+import HexVerif.Lemmas.XcmpStage4All
 import HexVerif.Lemmas.XcmpV1
 /-!
   Whole programs with several procedures (class V2): the program context built from the
@@ -19,6 +19,12 @@ theorem wfs_shift (G : GCtx) (pi : PInfo) (dep0 dep : Nat) (hi0 hi : Nat → Wor
     (arr_disj : ∀ id1 id2, id1 ≠ id2 → G.asize id1 ≠ 0 → G.asize id2 ≠ 0 →
       G.abase id1 + G.asize id1 ≤ G.abase id2 ∨ G.abase id2 + G.asize id2 ≤ G.abase id1)
     (lo_spv : G.lo ≤ G.spv)
+    (str_ok : ∀ l bs ws, (l, bs) ∈ G.strs → X.packString bs = .ok ws →
+      ∃ j k, G.env.ds[j]? = some (.label k l) ∧ G.env.addr j % 4 = 0 ∧ 2 ≤ G.env.addr j / 4 ∧
+        G.env.addr j / 4 + ws.length ≤ G.lo)
+    (str_sep : ∀ l bs ws j k n sym a idx, (l, bs) ∈ G.strs → X.packString bs = .ok ws → G.env.ds[j]? = some (.label k l) →
+      G.cg.tbl.lookup pi.p.name n = .ok sym → sym.scope = "" → G.locOf pi G.lo n = some a → idx < ws.length →
+      G.env.addr j / 4 + idx ≠ a)
     (sp : Nat) (hlo : G.lo ≤ sp) (hact : sp + G.S pi + pi.po + pi.p.formals.length ≤ G.spv + 1) :
     (KOf G pi sp dep hi).WFS exitJ := by
   have hpo := po_pos pi
@@ -111,6 +117,23 @@ theorem wfs_shift (G : GCtx) (pi : PInfo) (dep0 dep : Nat) (hi0 hi : Nat → Wor
         · have : c1 = c2 := by omega
           subst this
           exact wf0.loc_inj n m (G.lo + c1) (hall1 G.lo) (hall2 G.lo)
+    str := by
+      constructor
+      · intro l bs ws hm hp
+        obtain ⟨j, k, hd, h4, h2, hle⟩ := str_ok l bs ws hm hp
+        exact ⟨j, k, hd, h4, h2, Nat.le_trans hle hlo⟩
+      · intro l bs ws j k n a idx hm hp hd hloc hidx
+        have hloc' : G.locOf pi sp n = some a := hloc
+        rcases G.locOf_cases pi sp n a hloc' with ⟨sym', hl', hs', hall⟩ | ⟨sym', c, hl', _, hc, ha, hall⟩
+        · exact str_sep l bs ws j k n sym' a idx hm hp hd hl' hs' (hall G.lo) hidx
+        · obtain ⟨j', k', hd', _, _, hle⟩ := str_ok l bs ws hm hp
+          have hj := labelIdx_of_nodup _ j k l wf0.nodup hd
+          have hj' := labelIdx_of_nodup _ j' k' l wf0.nodup hd'
+          rw [hj] at hj'
+          have : j = j' := Option.some.inj hj'
+          subst this
+          show G.env.addr j / 4 + idx ≠ a
+          omega
     const_sep := by
       intro v l j k n a hmem hd hloc
       have hloc' : G.locOf pi sp n = some a := hloc
@@ -474,6 +497,7 @@ def smaxOf (cg : CGOut) (procs : List PInfo) : Nat :=
 def mkG (pk : Bool) (P : X.Program) (st : Stages) (img : Image) (fuel : Nat) (procs : List PInfo) : GCtx :=
   { env := v1Env st img, cg := st.cg, xc := v2Xc P fuel,
     consts := (procs.getLast?.map fun pi => pi.gs2.constMap).getD [],
+    strs := (procs.getLast?.map fun pi => pi.gs2.strs).getD [],
     procs := procs, gnames := v2Gnames P.globals, pnames := P.procs.map (·.name),
     gloc := v2Gloc st.cg (v1Env st img),
     spv := (spValue st.cg.globalsOffset).toNat, smax := smaxOf st.cg procs,
@@ -524,8 +548,8 @@ def procCheck (G : GCtx) (pi : PInfo) : Bool :=
   atB G.env.ds pi.iPro (proDirs pi.kind pi.p.name (G.S pi)) && atB G.env.ds (G.iBody pi) (lowerCode G.cg pi.code) &&
   atB G.env.ds (G.iEpi pi) (G.epi pi) &&
   decide (pi.gs2.size ≤ G.S pi) && decide (pi.p.locals.length ≤ pi.gs1.offset) &&
-  pi.gs2.constMap.all (fun e => G.consts.contains e) && decide (G.S pi ≤ G.smax) &&
-  okS5 G.pk G.pnames G.xc.impure G.rho pi.p.body && pi.p.formals.all isVAFormal && pi.p.locals.all isVarDecl &&
+  (pi.gs2.constMap.all (fun e => G.consts.contains e) && pi.gs2.strs.all (fun e => G.strs.contains e)) && decide (G.S pi ≤ G.smax) &&
+  okS5 G.pk G.pnames G.xc.impure G.rho (G.isLoc pi) pi.p.body && pi.p.formals.all isVAFormal && pi.p.locals.all isVarDecl &&
   G.procs.all (fun pj =>
     match G.cg.tbl.lookup pi.p.name pj.p.name with
     | .ok sym => decide ((sym.type = .func) ↔ (pj.p.isFunc = true))
@@ -552,13 +576,66 @@ def labelAddrCheck (G : GCtx) : Bool :=
     | some (.label _ _) => decide (G.env.addr j < 2 ^ 32)
     | _ => true
 
+/-- A string literal of the pool: its label is in the image, word-aligned and below the stack; the data words
+    after the label are the packed string of the reference semantics; no global is stored inside it. -/
+def strCheck (G : GCtx) (e : String × List Byte) : Bool :=
+  match X.packString e.2 with
+  | .error _ => true
+  | .ok ws =>
+    match labelIdx G.env.ds e.1 with
+    | none => false
+    | some j =>
+      decide (G.env.addr j % 4 = 0) && decide (2 ≤ G.env.addr j / 4) && decide (G.env.addr j / 4 + ws.length ≤ G.lo) &&
+      (List.range ws.length).all (fun idx =>
+        match G.env.ds[j + 1 + idx]?, ws[idx]? with
+        | some (.data v), some w => decide (BitVec.ofInt 32 v = w) && decide (G.env.addr (j + 1 + idx) = G.env.addr j + 4 * idx)
+        | _, _ => false) &&
+      G.gnames.all (fun n => match G.gloc n with
+        | some a => decide (a < G.env.addr j / 4 ∨ G.env.addr j / 4 + ws.length ≤ a)
+        | none => false)
+
+theorem strCheck_sound (G : GCtx) (l : String) (bs : List Byte) (ws : List Word)
+    (h : strCheck G (l, bs) = true) (hp : X.packString bs = .ok ws) :
+    ∃ j, labelIdx G.env.ds l = some j ∧ G.env.addr j % 4 = 0 ∧ 2 ≤ G.env.addr j / 4 ∧
+      G.env.addr j / 4 + ws.length ≤ G.lo ∧
+      (∀ idx (hi : idx < ws.length), ∃ v, G.env.ds[j + 1 + idx]? = some (.data v) ∧ BitVec.ofInt 32 v = ws[idx] ∧
+        G.env.addr (j + 1 + idx) = G.env.addr j + 4 * idx) ∧
+      (∀ n ∈ G.gnames, ∀ a, G.gloc n = some a → a < G.env.addr j / 4 ∨ G.env.addr j / 4 + ws.length ≤ a) := by
+  unfold strCheck at h
+  simp only at h
+  rw [hp] at h
+  simp only at h
+  cases hj : labelIdx G.env.ds l with
+  | none => rw [hj] at h; simp at h
+  | some j =>
+    rw [hj] at h
+    simp only [Bool.and_eq_true, decide_eq_true_eq, List.all_eq_true, List.mem_range] at h
+    obtain ⟨⟨⟨⟨h1, h2⟩, h3⟩, h4⟩, h5⟩ := h
+    refine ⟨j, rfl, h1, h2, h3, ?_, ?_⟩
+    · intro idx hi
+      have := h4 idx hi
+      rw [List.getElem?_eq_getElem hi] at this
+      cases hd : G.env.ds[j + 1 + idx]? with
+      | none => rw [hd] at this; simp at this
+      | some d =>
+        rw [hd] at this
+        cases d with
+        | data v =>
+          simp only [Bool.and_eq_true, decide_eq_true_eq] at this
+          exact ⟨v, rfl, this.1, this.2⟩
+        | _ => simp at this
+    · intro n hn a ha
+      have := h5 n hn
+      rw [ha] at this
+      simpa using this
+
 def globalCheck (G : GCtx) (imgWords : Nat) : Bool :=
   decide ((labelNames G.env.ds).Nodup) &&
   G.gnames.all (fun n => match G.gloc n with | some a => decide (2 ≤ a) && decide (a < G.lo) | none => false) &&
   G.consts.all (constCheck G) &&
   decide (G.spv + 2 < memWords) && decide (2 ≤ G.lo) && decide (G.lo + X.maxDepth * G.smax ≤ G.spv) &&
   labelAddrCheck G && decide (imgWords ≤ G.lo) && decide (G.env.addr 1 = 4) &&
-  decide ((G.gnames ++ G.pnames).Nodup)
+  decide ((G.gnames ++ G.pnames).Nodup) && G.strs.all (strCheck G)
 
 /-! ### Soundness of the check -/
 
@@ -597,15 +674,15 @@ theorem ok_of_checks (G : GCtx) (imgWords : Nat)
     (hpure : G.pk = true → PureOk G.xc) : G.OK := by
   unfold globalCheck at hglob
   simp only [Bool.and_eq_true, decide_eq_true_eq, List.all_eq_true] at hglob
-  obtain ⟨⟨⟨⟨⟨⟨⟨⟨⟨g1, g2⟩, g3⟩, g4⟩, g5⟩, g6⟩, g7⟩, g8⟩, g9⟩, g10⟩ := hglob
+  obtain ⟨⟨⟨⟨⟨⟨⟨⟨⟨⟨g1, g2⟩, g3⟩, g4⟩, g5⟩, g6⟩, g7⟩, g8⟩, g9⟩, g10⟩, g11⟩ := hglob
   have code_lo : ∀ w, G.lo ≤ w → G.env.isCode w = false := fun w hw => hbeyond w (by omega)
   have hpc : ∀ pi ∈ G.procs,
       (wfsCheck (KOf G pi G.lo 0 noHi) (G.iEpi pi) G.names = true ∧ e1Check G pi = true ∧ e2Check G pi = true ∧
        atB G.env.ds pi.iPro (proDirs pi.kind pi.p.name (G.S pi)) = true ∧
        atB G.env.ds (G.iBody pi) (lowerCode G.cg pi.code) = true ∧ atB G.env.ds (G.iEpi pi) (G.epi pi) = true ∧
        pi.gs2.size ≤ G.S pi ∧ pi.p.locals.length ≤ pi.gs1.offset ∧
-       (∀ e ∈ pi.gs2.constMap, G.consts.contains e = true) ∧ G.S pi ≤ G.smax ∧
-       okS5 G.pk G.pnames G.xc.impure G.rho pi.p.body = true ∧ pi.p.formals.all isVAFormal = true ∧ pi.p.locals.all isVarDecl = true) ∧
+       ((∀ e ∈ pi.gs2.constMap, G.consts.contains e = true) ∧ (∀ e ∈ pi.gs2.strs, G.strs.contains e = true)) ∧ G.S pi ≤ G.smax ∧
+       okS5 G.pk G.pnames G.xc.impure G.rho (G.isLoc pi) pi.p.body = true ∧ pi.p.formals.all isVAFormal = true ∧ pi.p.locals.all isVarDecl = true) ∧
       ((∀ pj ∈ G.procs, (match G.cg.tbl.lookup pi.p.name pj.p.name with
           | .ok sym => decide ((sym.type = .func) ↔ (pj.p.isFunc = true))
           | .error _ => false) = true) ∧
@@ -648,7 +725,7 @@ theorem ok_of_checks (G : GCtx) (imgWords : Nat)
   have wf0 : ∀ pi ∈ G.procs, (KOf G.noArr pi G.lo 0 noHi).WFS (G.iEpi pi) := by
     intro pi hpi
     have hck : wfsCheck (KOf G.noArr pi G.lo 0 noHi) (G.iEpi pi) G.names = wfsCheck (KOf G pi G.lo 0 noHi) (G.iEpi pi) G.names := rfl
-    exact wfsCheck_sound _ _ G.names (fun n a h => locOf_names G pi G.lo n a h) (PCtx.arrOK_of_none _ (fun _ => rfl))
+    exact wfsCheck_sound _ _ G.names (fun n a h => locOf_names G pi G.lo n a h) (PCtx.arrOK_of_none _ (fun _ => rfl)) (PCtx.strOK_of_none _ rfl)
       (hck.trans (hpc pi hpi).1.1)
   have hconst : ∀ v l j k, (v, l) ∈ G.consts → G.env.ds[j]? = some (.label k l) →
       G.env.ds[j + 1]? = some (.data v) ∧ 2 ≤ G.env.addr j / 4 ∧ G.env.addr j / 4 < G.lo := by
@@ -659,9 +736,28 @@ theorem ok_of_checks (G : GCtx) (imgWords : Nat)
     rw [labelIdx_of_nodup _ j k l g1 hd] at this
     simp only [Bool.and_eq_true, decide_eq_true_eq] at this
     exact ⟨this.1.1, this.1.2, this.2⟩
+  have hstr : ∀ l bs ws, (l, bs) ∈ G.strs → X.packString bs = .ok ws →
+      ∃ j k, G.env.ds[j]? = some (.label k l) ∧ G.env.addr j % 4 = 0 ∧ 2 ≤ G.env.addr j / 4 ∧
+        G.env.addr j / 4 + ws.length ≤ G.lo := by
+    intro l bs ws hm hp
+    obtain ⟨j, hj, h1, h2, h3, _⟩ := strCheck_sound G l bs ws (g11 _ hm) hp
+    obtain ⟨k, hlab⟩ := labelIdx_some _ _ _ hj
+    exact ⟨j, k, hlab, h1, h2, h3⟩
   exact {
     wfs := fun pi hpi sp dep hi hlo hact =>
-      wfs_shift G pi 0 dep noHi hi (G.iEpi pi) (wf0 pi hpi) (fun n sym a h1 h2 h3 => (E1 pi hpi n sym a h1 h2 h3).1) (E2 pi hpi) code_lo g4 g5 arr_hi arr_disj (by have := g6; omega) sp hlo hact
+      wfs_shift G pi 0 dep noHi hi (G.iEpi pi) (wf0 pi hpi) (fun n sym a h1 h2 h3 => (E1 pi hpi n sym a h1 h2 h3).1) (E2 pi hpi) code_lo g4 g5 arr_hi arr_disj (by have := g6; omega) hstr
+        (by
+          intro l bs ws j k n sym a idx hm hp hd hl hs hloc hidx
+          obtain ⟨j', hj', _, _, _, _, hsep⟩ := strCheck_sound G l bs ws (g11 _ hm) hp
+          rw [labelIdx_of_nodup _ j k l g1 hd] at hj'
+          have : j = j' := Option.some.inj hj'
+          subst this
+          have hn := (E1 pi hpi n sym a hl hs hloc).2
+          have hg : G.gloc n = some a := by rw [← ((hpc pi hpi).2.2.1 n hn).1]; exact hloc
+          have := hsep n hn a hg
+          omega)
+        sp hlo hact
+    str_ok := hstr
     nodup := g1
     at_pro := fun pi hpi => atB_sound _ _ _ (hpc pi hpi).1.2.2.2.1
     at_body := fun pi hpi => atB_sound _ _ _ (hpc pi hpi).1.2.2.2.2.1
@@ -669,9 +765,23 @@ theorem ok_of_checks (G : GCtx) (imgWords : Nat)
     gen := hgen
     size_ok := fun pi hpi => (hpc pi hpi).1.2.2.2.2.2.2.1
     nl_ok := fun pi hpi => (hpc pi hpi).1.2.2.2.2.2.2.2.1
-    consts_ok := fun pi hpi e he => by
-      have := (hpc pi hpi).1.2.2.2.2.2.2.2.2.1 e he
-      simpa using this
+    consts_ok := fun pi hpi x hx => by
+      obtain ⟨h1, h2⟩ := (hpc pi hpi).1.2.2.2.2.2.2.2.2.1
+      cases x with
+      | const v l =>
+        rw [const_mem_items] at hx
+        have := h1 _ hx
+        simp only [List.contains_iff_mem] at this
+        simp only [GCtx.items, List.mem_append, List.mem_map, PoolItem.const.injEq, Prod.exists, reduceCtorEq, and_false,
+          exists_false, or_false]
+        exact ⟨v, l, this, rfl, rfl⟩
+      | str l bs =>
+        rw [str_mem_items] at hx
+        have := h2 _ hx
+        simp only [List.contains_iff_mem] at this
+        simp only [GCtx.items, List.mem_append, List.mem_map, PoolItem.str.injEq, Prod.exists, reduceCtorEq, and_false,
+          exists_false, false_or]
+        exact ⟨l, bs, this, rfl, rfl⟩
     smax_ok := fun pi hpi => (hpc pi hpi).1.2.2.2.2.2.2.2.2.2.1
     body_ok := fun pi hpi => (hpc pi hpi).1.2.2.2.2.2.2.2.2.2.2.1
     pure_ok := hpure
@@ -1131,7 +1241,7 @@ theorem v2_core (G : GCtx) (ok : G.OK) (fuel : Nat) (mem0 : Mem) (st0 : X.St) (h
   have haddr := ok.addr_lt _ _ _ t3
   have hlodef := ok.lo_def
   have := hcs pm hpm [] st0 (BitVec.ofNat 32 (G.env.addr (iStub + 3))) 0 mem0 G.spv (iStub + 3) .plain "_exit"
-    hg0 hm1 (fun v hv => by simp at hv) (fun j hj => by simp at hj) (by rw [hdepth]; omega) (by rw [hpo]; simp) (by omega) t3
+    hg0 hm1 (fun j hj => by simp at hj) (by rw [hdepth]; omega) (by rw [hpo]; simp) (by omega) t3
     (toNat_ofNat_lt _ haddr).symm
   cases hx : X.callUser fuel G.xc pm.p [] st0 with
   | undef w => trivial
@@ -1281,7 +1391,7 @@ theorem v_setup (pk : Bool) (P : X.Program) (st : Stages) (img : Image) (inp : X
   have hglob' := hglob
   unfold globalCheck at hglob'
   simp only [Bool.and_eq_true, decide_eq_true_eq, List.all_eq_true] at hglob'
-  obtain ⟨⟨⟨⟨⟨⟨⟨⟨⟨_, _⟩, _⟩, _⟩, _⟩, _⟩, _⟩, _⟩, ha1⟩, hnd⟩ := hglob'
+  obtain ⟨⟨⟨⟨⟨⟨⟨⟨⟨⟨gnd, _⟩, _⟩, _⟩, _⟩, _⟩, _⟩, _⟩, ha1⟩, hnd⟩, gstr⟩ := hglob'
   rw [hGg, hGp] at hnd
   have hd1 := hhead.get 1 _ rfl
   obtain ⟨_, hm1, hc1⟩ := hdata 1 _ hd1
@@ -1400,7 +1510,7 @@ theorem v_setup (pk : Bool) (P : X.Program) (st : Stages) (img : Image) (inp : X
       rw [hmap, hfind] at h1
       exact (Option.some.inj h1).symm
     have hg0 : GRep G (v2St0 P inp) (Am.boot img).mem := by
-      refine ⟨?_, ?_, ?_, ?_⟩
+      refine ⟨?_, ?_, ?_, ?_, ?_⟩
       · intro n w _ hl
         have := v2Gv_none P.globals n _ hl
         simp at this
@@ -1451,6 +1561,17 @@ theorem v_setup (pk : Bool) (P : X.Program) (st : Stages) (img : Image) (inp : X
         have hdat := ok.const_data v l j k hmem hd
         obtain ⟨_, hval, _⟩ := hdata (j + 1) v hdat
         rw [hlabel j k l hd] at hval
+        exact hval
+      · intro l bs ws j k hmem hp hd idx hidx
+        obtain ⟨j', hj', _, _, _, hdat, _⟩ := strCheck_sound G l bs ws (gstr _ hmem) hp
+        rw [labelIdx_of_nodup _ j k l gnd hd] at hj'
+        have : j = j' := Option.some.inj hj'
+        subst this
+        obtain ⟨v, hdv, hv, haddr⟩ := hdat idx hidx
+        obtain ⟨_, hval, _⟩ := hdata (j + 1 + idx) v hdv
+        rw [haddr, hv] at hval
+        have : (G.env.addr j + 4 * idx) / 4 = G.env.addr j / 4 + idx := by omega
+        rw [this] at hval
         exact hval
     exact ⟨G, pm, ok, hGenv, hGxc, g, hp, hgv, hpm, hname, cmain, hpmm, hhead, hstub, hg0, hm1', hGspv⟩
 
@@ -1539,7 +1660,7 @@ def isV2 (P : X.Program) : Bool :=
   let gn := P.globals.map X.Decl.name
   let pn := P.procs.map (·.name)
   isGDecls P.globals [] &&
-  P.procs.all (fun p => p.formals.all isVAFormal && p.locals.all isVarDecl && okS5 false pn [] (v2Rho P) p.body &&
+  P.procs.all (fun p => p.formals.all isVAFormal && p.locals.all isVarDecl && okS5 false pn [] (v2Rho P) (fun _ => true) p.body &&
     (p.formals.map X.Formal.name ++ p.locals.map X.Decl.name).all (fun n => !gn.contains n && !pn.contains n)) &&
   (match P.procs.find? (·.name == "main") with
    | some m => !m.isFunc && m.formals.isEmpty
@@ -1584,7 +1705,7 @@ def isV3 (P : X.Program) : Bool :=
   let gn := P.globals.map X.Decl.name
   let pn := P.procs.map (·.name)
   isGDecls P.globals [] &&
-  P.procs.all (fun p => p.formals.all isVAFormal && p.locals.all isVarDecl && okS5 true pn (X.impureProcs P) (v2Rho P) p.body &&
+  P.procs.all (fun p => p.formals.all isVAFormal && p.locals.all isVarDecl && okS5 true pn (X.impureProcs P) (v2Rho P) (fun _ => true) p.body &&
     (p.formals.map X.Formal.name ++ p.locals.map X.Decl.name).all (fun n => !gn.contains n && !pn.contains n)) &&
   (match P.procs.find? (·.name == "main") with
    | some m => !m.isFunc && m.formals.isEmpty
